@@ -7,6 +7,19 @@ static int vh_schnorr_nonce_fn(unsigned char *nonce32, const unsigned char *msg,
     if (s->fail) return 0;
     memcpy(nonce32, s->k, 32); return 1;
 }
+/* a caller-written nonce callback that delegates to the EXPORTED secp256k1_nonce_function_bip340 (mode 5) */
+static int vh_schnorr_delegating_fn(unsigned char *nonce32, const unsigned char *msg, size_t msglen, const unsigned char *key32, const unsigned char *xonly_pk32, const unsigned char *algo, size_t algolen, void *data) {
+    return secp256k1_nonce_function_bip340(nonce32, msg, msglen, key32, xonly_pk32, algo, algolen, data);
+}
+/* the exported nonce function called directly */
+static void op_SchnorrNonceFn(const jv *in, jout *out) {
+    unsigned char key[32], pk[32], aux[32], algo[64], nonce[32]; int has_aux, ret; long alen, mlen = jv_bytes(in, "msg", VH_MSG, sizeof(VH_MSG));
+    jv_need(in, "key", key, 32); jv_need(in, "pk", pk, 32);
+    has_aux = jv_bytes(in, "aux", aux, 32) == 32; alen = jv_bytes(in, "algo", algo, sizeof(algo));
+    memset(nonce, 0xAA, 32);
+    ret = secp256k1_nonce_function_bip340(nonce, VH_MSG, (size_t)(mlen < 0 ? 0 : mlen), key, pk, alen < 0 ? NULL : algo, alen < 0 ? 0 : (size_t)alen, has_aux ? aux : NULL);
+    jo_int(out, "ret", ret); if (ret) jo_bytes(out, "nonce", nonce, 32);
+}
 static void op_SchnorrSign(const jv *in, jout *out) {
     unsigned char key[32], aux[32], sig[64]; secp256k1_keypair kp; int kret, ret = 0, has_aux;
     long mode = jv_int(in, "mode", 0); long mlen = jv_bytes(in, "msg", VH_MSG, sizeof(VH_MSG));
@@ -21,6 +34,7 @@ static void op_SchnorrSign(const jv *in, jout *out) {
     else if (mode == 1) ret = secp256k1_schnorrsig_sign_custom(CTX, sig, VH_MSG, (size_t)mlen, &kp, NULL);
     else if (mode == 2) { ep.ndata = has_aux ? aux : NULL; ret = secp256k1_schnorrsig_sign_custom(CTX, sig, VH_MSG, (size_t)mlen, &kp, &ep); }
     else if (mode == 4) { ep.noncefp = secp256k1_nonce_function_bip340; ep.ndata = has_aux ? aux : NULL; ret = secp256k1_schnorrsig_sign_custom(CTX, sig, VH_MSG, (size_t)mlen, &kp, &ep); }
+    else if (mode == 5) { ep.noncefp = vh_schnorr_delegating_fn; ep.ndata = has_aux ? aux : NULL; ret = secp256k1_schnorrsig_sign_custom(CTX, sig, VH_MSG, (size_t)mlen, &kp, &ep); }
     else { sn.fail = jv_bytes(in, "nonce", sn.k, 32) != 32; ep.noncefp = vh_schnorr_nonce_fn; ep.ndata = &sn; ret = secp256k1_schnorrsig_sign_custom(CTX, sig, VH_MSG, (size_t)mlen, &kp, &ep); }
     jo_int(out, "ret", ret); jo_bytes(out, "sig", sig, 64);
 }
@@ -33,4 +47,4 @@ static void op_SchnorrVerify(const jv *in, jout *out) {
     jo_int(out, "ret", pret ? secp256k1_schnorrsig_verify(CTX, sig, VH_MSG, (size_t)mlen, &pk) : 0);
 }
 #define VH_OPS_SCHNORR \
-    { "SchnorrSign", op_SchnorrSign }, { "SchnorrVerify", op_SchnorrVerify },
+    { "SchnorrSign", op_SchnorrSign }, { "SchnorrVerify", op_SchnorrVerify }, { "SchnorrNonceFn", op_SchnorrNonceFn },
